@@ -2,7 +2,9 @@
 import json
 import random
 
-from harness import strings as S, obs
+import os
+
+from harness import strings as S, obs, tlc
 from harness.tlc import from_atoms
 
 CLAUSES = ('C06',)
@@ -82,6 +84,15 @@ def run(chk):
         chk.case(''.join(e['i']))
     S.judge(chk, S.validate(chk, exps2, timeout=3000, label='trace-light', light=True), CLAUSES,
             'parse outcome must be a tree or a diagnostic; no hang, no leak')
+    # termination as liveness under weak fairness, in a tiny scope (the safety counterpart StepBound is checked everywhere)
+    dl = tlc.workdir('C06_liveness')
+    S.mc_strings(dl, 'MC', [(S.SUB['env'][:8], 2), (S.SUB['item'][:8], 2)], (), [], dump=False, runs='B')
+    cfg = open(os.path.join(dl, 'MC.cfg')).read().replace('SPECIFICATION Spec', 'SPECIFICATION FairSpec').replace('PROPERTY LexProgressP', 'PROPERTY LexProgressP\nPROPERTY Terminates')
+    open(os.path.join(dl, 'MC.cfg'), 'w').write(cfg)
+    lres = tlc.run(dl, 'MC', timeout=1200)
+    chk.add_tlc('liveness', lres, 'Strings (FairSpec): every started experiment terminates (~>), tiny scope')
+    if lres.violated:
+        raise tlc.MachineryError('liveness property Terminates violated in the model: %s' % lres.violated)
     # the known finding at specification level: the reader machine itself exceeds the linear step bound on this family
     ex = S.explore(chk, 'endnest-exhibit', [], invariants=['C06_StepBound'], sources=[endnest(9)], runs='B', timeout=600)
     chk.notes['known_finding_exhibited_by_TLC'] = {'source': 'endnest(9)', 'invariant_violated_in_model': ex.violated}
